@@ -151,7 +151,8 @@ def gen_hydraulic(rng, fluid=None, n=None, features=(), label_scheme="contiguous
 
     p_grid = float(rng.uniform(5, 10)) if not gas else float(rng.uniform(1.5, 3.0))
     add("ext_grid", junction="j0", p_bar=p_grid, t_k=float(rng.uniform(283, 323)), in_service=True)
-    special_budget = {"pump": 1, "compressor": 1, "press_control": 1, "heat_exchanger": 2}
+    special_budget = {"pump": 3 if "multi_pump" in feats else 1, "compressor": 2 if "multi_pump" in feats else 1,
+                      "press_control": 1, "heat_exchanger": 2}
     for i in range(1, n):
         k = int(rng.integers(0, i))
         r = rng.random()
